@@ -83,6 +83,7 @@ let parse_cmd (s : string) : cmd =
   | ["cachenew"; c; k] -> CCacheNew (n_of_string c, n_of_string k)
   | ["cacheload"; k] -> CCacheLoad (n_of_string k)
   | ["setgen"; g] -> CSetGen (n_of_string g)
+  | ["move"; h; h2] -> CMove (n_of_string h, n_of_string h2)
   | _ -> failwith ("bad command: " ^ s)
 
 let () =
